@@ -122,7 +122,15 @@ func (ctx *EvalCtx) specialForm(name string, x *ast.CallExpr) (CV, bool) {
 		if ctx.frame == nil || ctx.block == nil {
 			ctx.fail("visited() is only available in invariants of a range-over-map loop")
 		}
-		for _, in := range ctx.block.Instrs {
+		// the iterator of this loop, or of a loop this one is nested in
+		var instrs []ssa.Instruction
+		instrs = append(instrs, ctx.block.Instrs...)
+		for h, li := range ctx.frame.loops {
+			if h != ctx.block && li.body[ctx.block] {
+				instrs = append(instrs, h.Instrs...)
+			}
+		}
+		for _, in := range instrs {
 			nx, ok := in.(*ssa.Next)
 			if !ok || nx.IsString {
 				continue
